@@ -62,6 +62,10 @@ def rows(model, dec, fid, write_op, prop='C03', extra_fp=None):
             exp, info = M.expected_rows(fm, model, write_op)
             if exp is None or fm.h not in loc:
                 continue
+            lens = M.row_counts(fm, model, write_op)
+            if len(set(lens)) > 1:
+                out.append(V('%s.unequal_row_counts_accepted' % prop, dict(extra_fp or {}), frame=fm.name, row_counts=lens))
+                continue
             stats['frames'] += 1
             obname = loc[fm.h][1].name
             seen.add(obname)
